@@ -43,6 +43,8 @@ const (
 	kError
 	kList
 	kString
+	kIface
+	kMap
 )
 
 type tyInfo struct {
@@ -50,6 +52,20 @@ type tyInfo struct {
 	width int     // 0 = unbounded (int, untyped)
 	name  string  // struct name
 	elem  *tyInfo // element type of a list
+	ptr   bool    // list of pointers to structs (elements may be mutated through the pointer)
+}
+
+// ifaceSums: the interfaces of the package that are rendered as closed sums, with the concrete types (pointers to these
+// structs) the library itself stores in them.  Other implementors a caller might supply are outside the model.
+var ifaceSums = map[string][]string{
+	"PacketStatusChunk": {"RunLengthChunk", "StatusVectorChunk"},
+}
+
+// fuelHints: iteration bounds for loops whose condition alone does not bound them, by function and condition text.
+// Each is validated by the equivalence proof (the translated function never returns Fuel).
+var fuelHints = map[string]string{
+	// every iteration returns or advances packetStatusPos by 2, and packetStatusPos+2 <= totalLength <= 65532
+	"TransportLayerCC.Unmarshal|processedPacketNum < t.PacketStatusCount": "(Z.to_nat 32800)",
 }
 
 func classify(t types.Type) tyInfo {
@@ -58,6 +74,13 @@ func classify(t types.Type) tyInfo {
 	}
 	if n, ok := t.(*types.Named); ok && n.Obj().Pkg() == nil && n.Obj().Name() == "error" {
 		return tyInfo{k: kError}
+	}
+	if n, ok := t.(*types.Named); ok {
+		if _, isSum := ifaceSums[n.Obj().Name()]; isSum {
+			if _, isI := n.Underlying().(*types.Interface); isI {
+				return tyInfo{k: kIface, name: n.Obj().Name()}
+			}
+		}
 	}
 	switch u := t.Underlying().(type) {
 	case *types.Basic:
@@ -95,12 +118,21 @@ func classify(t types.Type) tyInfo {
 		if b, ok := u.Elem().Underlying().(*types.Basic); ok && b.Kind() == types.Uint8 {
 			return tyInfo{k: kBytes}
 		}
-		if _, isPtr := u.Elem().Underlying().(*types.Pointer); !isPtr {
+		if pt, isPtr := u.Elem().Underlying().(*types.Pointer); !isPtr {
 			e := classify(u.Elem())
 			switch e.k {
-			case kUint, kSint, kBool, kStruct, kBytes:
+			case kUint, kSint, kBool, kStruct, kBytes, kIface:
 				return tyInfo{k: kList, elem: &e}
 			}
+		} else if n, ok := pt.Elem().(*types.Named); ok {
+			if _, isS := n.Underlying().(*types.Struct); isS {
+				e := tyInfo{k: kStruct, name: n.Obj().Name()}
+				return tyInfo{k: kList, elem: &e, ptr: true}
+			}
+		}
+	case *types.Map:
+		if k, v := classify(u.Key()), classify(u.Elem()); (k.k == kUint || k.k == kSint) && (v.k == kUint || v.k == kSint) {
+			return tyInfo{k: kMap}
 		}
 	case *types.Struct:
 		if n, ok := t.(*types.Named); ok {
@@ -210,12 +242,19 @@ func (t *translator) needStruct(name string) *structInfo {
 	for i := 0; i < st.NumFields(); i++ {
 		f := st.Field(i)
 		ti := classify(f.Type())
+		if f.Embedded() {
+			s.skipped = append(s.skipped, f.Name())
+			continue
+		}
 		switch ti.k {
 		case kUint, kSint, kBool, kBytes, kString:
 			s.fields = append(s.fields, fieldInfo{f.Name(), ti})
 		case kList:
 			if ti.elem.k == kStruct {
 				t.needStruct(ti.elem.name)
+			}
+			if ti.elem.k == kIface {
+				t.needIface(ti.elem.name)
 			}
 			s.fields = append(s.fields, fieldInfo{f.Name(), ti})
 		case kStruct:
@@ -233,6 +272,18 @@ func (t *translator) needStruct(name string) *structInfo {
 	return s
 }
 
+func (t *translator) needIface(name string) {
+	for _, o := range t.order {
+		if o == "iface:"+name {
+			return
+		}
+	}
+	for _, m := range ifaceSums[name] {
+		t.needStruct(m)
+	}
+	t.order = append(t.order, "iface:"+name)
+}
+
 func coqTy(ti tyInfo) string {
 	switch ti.k {
 	case kUint, kSint:
@@ -245,6 +296,10 @@ func coqTy(ti tyInfo) string {
 		return ti.name
 	case kList:
 		return "(list " + coqTy(*ti.elem) + ")"
+	case kIface:
+		return ti.name
+	case kMap:
+		return "(list (Z * Z))"
 	}
 	return "unit"
 }
@@ -255,8 +310,11 @@ func (t *translator) zero(ti tyInfo) string {
 		return "0"
 	case kBool:
 		return "false"
-	case kBytes, kList, kString:
+	case kBytes, kList, kString, kMap:
 		return "[]"
+	case kIface:
+		t.needIface(ti.name)
+		return ti.name + "_nil"
 	case kStruct:
 		s := t.needStruct(ti.name)
 		parts := []string{"mk" + s.name}
@@ -270,6 +328,15 @@ func (t *translator) zero(ti tyInfo) string {
 
 func (t *translator) emitStructs(b *bytes.Buffer) {
 	for _, name := range t.order {
+		if strings.HasPrefix(name, "iface:") {
+			in := strings.TrimPrefix(name, "iface:")
+			fmt.Fprintf(b, "(* interface %s as the closed sum of the concrete types the library stores in it *)\nInductive %s :=", in, in)
+			for _, m := range ifaceSums[in] {
+				fmt.Fprintf(b, "\n  | %s_%s (x : %s)", in, m, m)
+			}
+			fmt.Fprintf(b, "\n  | %s_nil.\n\n", in)
+			continue
+		}
 		s := t.structs[name]
 		fmt.Fprintf(b, "Record %s := mk%s {", s.name, s.name)
 		for i, f := range s.fields {
@@ -320,7 +387,15 @@ type ctx struct {
 	results []types.Object // named results
 	depth   int
 	resTy   string
+	resRaw  string // result type without the res monad
+	direct  bool   // inside a direct-style (nested) loop: a return is `Ok (inr v)`
 	loops   []loopInfo
+	aliases map[types.Object]alias // an interface or pointer variable that refers to another local's struct
+}
+
+type alias struct {
+	target types.Object
+	ctor   string // constructor of the sum when the alias is an interface value, "" for a plain pointer
 }
 
 type loopInfo struct {
@@ -349,6 +424,10 @@ func (c *ctx) clone() *ctx {
 	d.poison = map[types.Object]bool{}
 	for k, v := range c.poison {
 		d.poison[k] = v
+	}
+	d.aliases = map[types.Object]alias{}
+	for k, v := range c.aliases {
+		d.aliases[k] = v
 	}
 	// the counter is shared on purpose: names stay unique across the duplicated continuations
 	d.pending = nil
@@ -448,6 +527,16 @@ func (c *ctx) varName(id *ast.Ident) string {
 	if v, ok := c.views[o]; ok {
 		return c.viewValue(v)
 	}
+	if a, ok := c.aliases[o]; ok {
+		tn, ok := c.vars[a.target]
+		if !ok || c.poison[a.target] {
+			c.t.fail(id, "%s refers to a value that is no longer available", id.Name)
+		}
+		if a.ctor != "" {
+			return fmt.Sprintf("(%s %s)", a.ctor, tn)
+		}
+		return tn
+	}
 	if n, ok := c.vars[o]; ok {
 		return n
 	}
@@ -512,10 +601,67 @@ func (c *ctx) callee(call *ast.CallExpr) (*fnSig, ast.Expr) {
 			if s, ok := c.t.sigs[key]; ok {
 				return s, f.X
 			}
+			if rt.k == kIface {
+				return c.t.ifaceDispatch(call, rt.name, f.Sel.Name), f.X
+			}
 			c.t.fail(call, "call of %s, which is not (yet) translated", key)
 		}
 	}
 	return nil, nil
+}
+
+// ifaceDispatch emits `I_M (x : I) args := match x with I_A a => A_M a args | ... | I_nil => Panic end`
+func (t *translator) ifaceDispatch(n ast.Node, iface, method string) *fnSig {
+	var first *fnSig
+	t.needIface(iface)
+	var arms strings.Builder
+	for _, m := range ifaceSums[iface] {
+		sg, ok := t.sigs[m+"."+method]
+		if !ok {
+			t.fail(n, "call of %s.%s through %s: the method of %s is not (yet) translated", iface, method, iface, m)
+		}
+		if sg.ptrRecv {
+			t.fail(n, "call of %s.%s through the interface updates its receiver", m, method)
+		}
+		if first == nil {
+			first = sg
+		} else if first.hasErr != sg.hasErr || first.nres != sg.nres || first.pure != sg.pure {
+			t.fail(n, "methods %s of the members of %s have different shapes", method, iface)
+		}
+		fmt.Fprintf(&arms, "  | %s_%s a => %s a%s\n", iface, m, sg.coq, "%ARGS%")
+	}
+	fd := t.decls[ifaceSums[iface][0]+"."+method]
+	var ps, as []string
+	for _, p := range fd.Type.Params.List {
+		ti := classify(t.l.info.TypeOf(p.Type))
+		for i := range p.Names {
+			nm := fmt.Sprintf("a%d_%d", len(ps), i)
+			ps = append(ps, fmt.Sprintf("(%s : %s)", nm, coqTy(ti)))
+			as = append(as, nm)
+		}
+	}
+	argstr := ""
+	if len(as) > 0 {
+		argstr = " " + strings.Join(as, " ")
+	}
+	sig := *first
+	sig.key = iface + "." + method
+	sig.coq = iface + "_" + method
+	sig.recvTy = iface
+	sig.recvCoq = iface
+	nilArm := "Panic"
+	if sig.pure {
+		t.fail(n, "pure method through an interface (a nil value would panic)")
+	}
+	fmt.Fprintf(&t.body, "(* dynamic dispatch of %s.%s over the members of the sum *)\nDefinition %s (x : %s)%s :=\n  match x with\n%s  | %s_nil => %s\n  end.\n\n",
+		iface, method, sig.coq, iface, func() string {
+			if len(ps) == 0 {
+				return ""
+			}
+			return " " + strings.Join(ps, " ")
+		}(), strings.ReplaceAll(arms.String(), "%ARGS%", argstr), iface, nilArm)
+	t.sigs[sig.key] = &sig
+	return &sig
 }
 
 func (c *ctx) args(call *ast.CallExpr, recv ast.Expr) string {
@@ -527,6 +673,30 @@ func (c *ctx) args(call *ast.CallExpr, recv ast.Expr) string {
 		parts = append(parts, c.expr(a))
 	}
 	return strings.Join(parts, " ")
+}
+
+// exprAs: e used where a value of type [to] is expected (injects a concrete struct into an interface sum)
+func (c *ctx) exprAs(e ast.Expr, to tyInfo) string {
+	if to.k == kIface {
+		from := c.typeOf(e)
+		if from.k == kStruct {
+			ok := false
+			for _, m := range ifaceSums[to.name] {
+				if m == from.name {
+					ok = true
+				}
+			}
+			if !ok {
+				c.t.fail(e, "%s stored in %s (not one of the concrete types of the sum)", from.name, to.name)
+			}
+			c.t.needIface(to.name)
+			return fmt.Sprintf("(%s_%s %s)", to.name, from.name, c.expr(e))
+		}
+		if id, isId := e.(*ast.Ident); isId && id.Name == "nil" {
+			return to.name + "_nil"
+		}
+	}
+	return c.expr(e)
 }
 
 // expr: a pure Gallina term; impure sub-terms are hoisted into c.pending in evaluation order
@@ -579,6 +749,9 @@ func (c *ctx) expr(e ast.Expr) string {
 		}
 		c.t.fail(x, "selector %s.%s", types.ExprString(x.X), x.Sel.Name)
 	case *ast.IndexExpr:
+		if c.typeOf(x.X).k == kMap {
+			return fmt.Sprintf("(gmapget %s %s)", c.expr(x.X), c.expr(x.Index))
+		}
 		if c.typeOf(x.X).k == kList {
 			l := c.expr(x.X)
 			return c.bind(fmt.Sprintf("gnth %s %s", l, c.expr(x.Index)))
@@ -651,13 +824,24 @@ func (c *ctx) expr(e ast.Expr) string {
 		return c.call(x)
 	case *ast.CompositeLit:
 		ti := c.typeOf(e)
+		if ti.k == kMap {
+			var parts []string
+			for _, el := range x.Elts {
+				kv, ok := el.(*ast.KeyValueExpr)
+				if !ok {
+					c.t.fail(x, "map literal element")
+				}
+				parts = append(parts, fmt.Sprintf("(%s, %s)", c.expr(kv.Key), c.expr(kv.Value)))
+			}
+			return "[" + strings.Join(parts, "; ") + "]"
+		}
 		if ti.k == kList {
 			var parts []string
 			for _, el := range x.Elts {
 				if _, isKV := el.(*ast.KeyValueExpr); isKV {
 					c.t.fail(x, "keyed slice literal")
 				}
-				parts = append(parts, c.expr(el))
+				parts = append(parts, c.exprAs(el, *ti.elem))
 			}
 			return "[" + strings.Join(parts, "; ") + "]"
 		}
@@ -855,7 +1039,7 @@ func (c *ctx) call(x *ast.CallExpr) string {
 					if x.Ellipsis.IsValid() {
 						return fmt.Sprintf("(%s ++ %s)", a, c.expr(x.Args[1]))
 					}
-					return fmt.Sprintf("(%s ++ [%s])", a, c.expr(x.Args[1]))
+					return fmt.Sprintf("(%s ++ [%s])", a, c.exprAs(x.Args[1], *c.typeOf(x.Args[0]).elem))
 				}
 				if c.typeOf(x.Args[0]).k == kBytes && len(x.Args) == 2 {
 					a := c.expr(x.Args[0])
@@ -988,6 +1172,11 @@ func (c *ctx) assignTo(lhs ast.Expr, term string, cont kont) string {
 		if classify(o.Type()).k == kError {
 			c.t.fail(lhs, "assignment of an error value that is not a call result")
 		}
+		if a, isAlias := c.aliases[o]; isAlias && a.ctor == "" {
+			// a field update or a pointer-method call through a copy of a pointer reaches the struct it points to
+			return c.setVar(a.target, a.target.Name(), term, cont)
+		}
+		delete(c.aliases, o)
 		delete(c.views, o)
 		delete(c.owned, o)
 		return c.setVar(o, l.Name, term, cont)
@@ -1218,7 +1407,39 @@ func (c *ctx) assign(s *ast.AssignStmt, cont kont) string {
 				}
 			}
 		}
-		term := c.expr(s.Rhs[0])
+		// x = p where p is a local *T: x refers to p's struct from now on (an interface holding the pointer, or a copy of it)
+		if lid, ok := s.Lhs[0].(*ast.Ident); ok && lid.Name != "_" {
+			if rid, ok := s.Rhs[0].(*ast.Ident); ok {
+				lo, ro := c.objOf(lid), c.objOf(rid)
+				if ro != nil && lo != nil {
+					_, rIsPtr := ro.Type().Underlying().(*types.Pointer)
+					lt := classify(lo.Type())
+					if _, isLocal := c.vars[ro]; isLocal && rIsPtr && classify(ro.Type()).k == kStruct && (lt.k == kIface || lt.k == kStruct) {
+						a := alias{target: ro}
+						if prev, chained := c.aliases[ro]; chained {
+							a = prev
+						}
+						if lt.k == kIface {
+							c.t.needIface(lt.name)
+							a.ctor = lt.name + "_" + classify(ro.Type()).name
+							okm := false
+							for _, m := range ifaceSums[lt.name] {
+								if m == classify(ro.Type()).name {
+									okm = true
+								}
+							}
+							if !okm {
+								c.t.fail(s, "%s stored in %s", classify(ro.Type()).name, lt.name)
+							}
+						}
+						c.aliases[lo] = a
+						c.vars[lo] = "alias"
+						return wrap(c.take(), cont(c), c.depth)
+					}
+				}
+			}
+		}
+		term := c.exprAs(s.Rhs[0], c.typeOf(s.Lhs[0]))
 		return c.assignTo(s.Lhs[0], term, cont)
 	}
 	// parallel assignment: evaluate all right-hand sides first
@@ -1515,6 +1736,9 @@ func btoi(b bool) int {
 }
 
 func (c *ctx) okWrap(v string) string {
+	if c.direct {
+		return "Ok (inr " + v + ")"
+	}
 	if c.t.curPure {
 		return v
 	}
@@ -1671,15 +1895,18 @@ type scopeVar struct {
 func (c *ctx) scopeVars() []scopeVar {
 	var out []scopeVar
 	for o, n := range c.vars {
-		if n == "view" || n == "poisoned" || c.poison[o] {
+		if n == "view" || n == "poisoned" || n == "alias" || c.poison[o] {
 			continue
 		}
 		if _, isView := c.views[o]; isView {
 			continue
 		}
+		if _, isAlias := c.aliases[o]; isAlias {
+			continue
+		}
 		ti := classify(o.Type())
 		switch ti.k {
-		case kUint, kSint, kBool, kBytes, kStruct, kList, kString:
+		case kUint, kSint, kBool, kBytes, kStruct, kList, kString, kIface, kMap:
 			out = append(out, scopeVar{o, n, coqTy(ti)})
 		}
 	}
@@ -1775,7 +2002,114 @@ func (c *ctx) fuelFor(cond ast.Expr) string {
 	return fmt.Sprintf("(S (Z.to_nat (%s - %s + 1)))", h, l)
 }
 
+// ---- nested loops, direct style: the loop is a function returning either the variables in scope at its exit (inl) or
+// the value the enclosing Go function returned from inside it (inr); the caller matches on the result. ----
+
+func tupleOf(parts []string) string {
+	switch len(parts) {
+	case 0:
+		return "tt"
+	case 1:
+		return parts[0]
+	}
+	return "(" + strings.Join(parts, ", ") + ")"
+}
+
+func (c *ctx) directResultTy(vs []scopeVar) string {
+	var tys []string
+	for _, v := range vs {
+		tys = append(tys, v.ty)
+	}
+	tt := "unit"
+	if len(tys) > 0 {
+		tt = strings.Join(tys, " * ")
+	}
+	return fmt.Sprintf("res ((%s) + (%s))", tt, c.resRaw)
+}
+
+func (c *ctx) exitTuple(vs []scopeVar) string {
+	var names []string
+	for _, v := range vs {
+		n, ok := c.vars[v.obj]
+		if !ok || c.poison[v.obj] {
+			c.t.fail(nil, "variable %s is not available at a loop exit", v.obj.Name())
+		}
+		names = append(names, n)
+	}
+	return "Ok (inl " + tupleOf(names) + ")"
+}
+
+// afterDirect: `match <call> with Ok (inl vars) => cont | Ok (inr r) => return r | ...`
+func (c *ctx) afterDirect(callText string, vs []scopeVar, cont kont) string {
+	c.t.usedMono = true
+	binds := c.take()
+	d := c.clone()
+	d.depth = c.depth + 1
+	var names []string
+	for _, v := range vs {
+		n := d.fresh(v.obj.Name())
+		d.vars[v.obj] = n
+		names = append(names, n)
+	}
+	var b strings.Builder
+	b.WriteString(ind(c.depth) + "match " + callText + " with\n")
+	b.WriteString(ind(c.depth) + "| Ok (inl " + tupleOf(names) + ") =>\n")
+	b.WriteString(cont(d))
+	b.WriteString(ind(c.depth) + "| Ok (inr r) => " + c.okWrap("r") + "\n")
+	b.WriteString(ind(c.depth) + "| Err => Err\n" + ind(c.depth) + "| Panic => Panic\n" + ind(c.depth) + "| Fuel => Fuel\n" + ind(c.depth) + "end\n")
+	return wrap(binds, b.String(), c.depth)
+}
+
+func (c *ctx) forStmtDirect(s *ast.ForStmt, cont kont) string {
+	if s.Cond == nil {
+		c.t.fail(s, "loop without a condition")
+	}
+	c.t.usedMono = true
+	n := c.t.nextLift()
+	vs := c.scopeVars()
+	loop := fmt.Sprintf("%s_loop%d", c.sig.coq, n)
+	lc := c.clone()
+	lc.depth = 3
+	lc.direct = true
+	self := func(d *ctx) string { return ind(d.depth) + loop + " fuel'" + d.actuals(vs) + "\n" }
+	step := func(d *ctx) string {
+		if s.Post == nil {
+			return self(d)
+		}
+		return d.stmts([]ast.Stmt{s.Post}, self)
+	}
+	lc.loops = append(append([]loopInfo(nil), c.loops...), loopInfo{
+		onContinue: step,
+		onBreak:    func(d *ctx) string { return ind(d.depth) + d.exitTuple(vs) + "\n" },
+	})
+	cond := lc.expr(s.Cond)
+	binds := lc.take()
+	exit := ind(3) + lc.exitTuple(vs) + "\n"
+	bc := lc.clone()
+	var sb strings.Builder
+	sb.WriteString(ind(2) + fmt.Sprintf("if %s then\n", cond))
+	sb.WriteString(bc.stmts(s.Body.List, step))
+	sb.WriteString(ind(2) + "else\n")
+	sb.WriteString(exit)
+	code := wrap(binds, sb.String(), 2)
+	c.t.lifted = append(c.t.lifted, fmt.Sprintf("Fixpoint %s (fuel : nat)%s {struct fuel} : %s :=\n  match fuel with\n  | O => Fuel\n  | S fuel' =>\n%s  end.\n\n",
+		loop, params(vs), c.directResultTy(vs), code))
+	var fuel string
+	if h, ok := fuelHints[c.sig.key+"|"+types.ExprString(s.Cond)]; ok {
+		fuel = h
+	} else {
+		fuel = c.fuelFor(s.Cond)
+	}
+	return c.afterDirect(fmt.Sprintf("%s %s%s", loop, fuel, c.actuals(vs)), vs, cont)
+}
+
 func (c *ctx) forStmt(s *ast.ForStmt, cont kont) string {
+	if len(c.loops) > 0 {
+		if s.Init != nil {
+			return c.stmts([]ast.Stmt{s.Init}, func(d *ctx) string { return d.forStmtDirect(s, cont) })
+		}
+		return c.forStmtDirect(s, cont)
+	}
 	body := func(c *ctx) string {
 		if s.Cond == nil {
 			c.t.fail(s, "loop without a condition")
@@ -1810,7 +2144,12 @@ func (c *ctx) forStmt(s *ast.ForStmt, cont kont) string {
 		code := wrap(binds, sb.String(), 2)
 		c.t.lifted = append(c.t.lifted, fmt.Sprintf("Fixpoint %s (fuel : nat)%s {struct fuel} : %s :=\n  match fuel with\n  | O => Fuel\n  | S fuel' =>\n%s  end.\n\n",
 			loop, params(vs), c.resTy, code))
-		fuel := c.fuelFor(s.Cond)
+		var fuel string
+		if h, ok := fuelHints[c.sig.key+"|"+types.ExprString(s.Cond)]; ok {
+			fuel = h
+		} else {
+			fuel = c.fuelFor(s.Cond)
+		}
 		return wrap(c.take(), ind(c.depth)+fmt.Sprintf("%s %s%s\n", loop, fuel, c.actuals(vs)), c.depth)
 	}
 	if s.Init != nil {
@@ -1824,6 +2163,9 @@ func (c *ctx) rangeStmt(s *ast.RangeStmt, cont kont) string {
 	if xt.k != kList || (s.Tok != token.DEFINE && (s.Key != nil || s.Value != nil)) {
 		c.t.fail(s, "range over something that is not a list of the fragment")
 	}
+	if len(c.loops) > 0 {
+		c.t.fail(s, "range loop nested in another loop")
+	}
 	xs := c.expr(s.X)
 	pre := c.take()
 	n := c.t.nextLift()
@@ -1832,7 +2174,23 @@ func (c *ctx) rangeStmt(s *ast.RangeStmt, cont kont) string {
 	loop := fmt.Sprintf("%s_loop%d", c.sig.coq, n)
 	lc := c.clone()
 	lc.depth = 2
-	self := func(d *ctx) string { return ind(d.depth) + loop + " rest' (idx + 1)" + d.actuals(vs) + "\n" }
+	plainSelf := func(d *ctx) string { return ind(d.depth) + loop + " rest' (idx + 1)" + d.actuals(vs) + "\n" }
+	self := plainSelf
+	if vid, ok := s.Value.(*ast.Ident); ok && vid.Name != "_" && xt.ptr && c.t.bodyMutates(s.Body, c.objOf(vid)) {
+		// the elements are pointers and the body writes through the loop variable: the element of the ranged slice
+		// is the struct that was updated
+		idxId := ast.NewIdent("idx")
+		fake := types.NewVar(token.NoPos, c.t.l.pkg, "idx", types.Typ[types.Int])
+		c.t.l.info.Uses[idxId] = fake
+		c.t.l.info.Types[idxId] = types.TypeAndValue{Type: types.Typ[types.Int]}
+		target := &ast.IndexExpr{X: s.X, Index: idxId}
+		c.t.l.info.Types[target] = types.TypeAndValue{Type: c.t.l.info.TypeOf(vid)}
+		vobj := c.objOf(vid)
+		self = func(d *ctx) string {
+			d.vars[fake] = "idx"
+			return d.assignTo(target, d.vars[vobj], func(d2 *ctx) string { delete(d2.vars, fake); return plainSelf(d2) })
+		}
+	}
 	lc.loops = append(append([]loopInfo(nil), c.loops...), loopInfo{
 		onContinue: self,
 		onBreak:    func(d *ctx) string { return ind(d.depth) + after + d.actuals(vs) + "\n" },
@@ -1852,6 +2210,57 @@ func (c *ctx) rangeStmt(s *ast.RangeStmt, cont kont) string {
 	c.t.lifted = append(c.t.lifted, fmt.Sprintf("Fixpoint %s (rest : %s) (idx : Z)%s {struct rest} : %s :=\n  match rest with\n  | [] => %s%s\n  | x :: rest' =>\n%s  end.\n\n",
 		loop, coqTy(xt), params(vs), c.resTy, after, func() string { d := c.clone(); return d.actuals(vs) }(), sb.String()))
 	return wrap(pre, ind(c.depth)+fmt.Sprintf("%s %s 0%s\n", loop, xs, c.actuals(vs)), c.depth)
+}
+
+// bodyMutates: does the block write through the variable (field assignment, or a call of a method that writes its receiver)?
+func (t *translator) bodyMutates(body *ast.BlockStmt, obj types.Object) bool {
+	found := false
+	root := func(e ast.Expr) types.Object {
+		for {
+			switch x := e.(type) {
+			case *ast.ParenExpr:
+				e = x.X
+			case *ast.StarExpr:
+				e = x.X
+			case *ast.SelectorExpr:
+				e = x.X
+			case *ast.IndexExpr:
+				e = x.X
+			case *ast.Ident:
+				if o := t.l.info.Uses[x]; o != nil {
+					return o
+				}
+				return t.l.info.Defs[x]
+			default:
+				return nil
+			}
+		}
+	}
+	ast.Inspect(body, func(n ast.Node) bool {
+		switch x := n.(type) {
+		case *ast.AssignStmt:
+			for _, l := range x.Lhs {
+				if _, plain := l.(*ast.Ident); !plain && root(l) == obj {
+					found = true
+				}
+			}
+		case *ast.IncDecStmt:
+			if _, plain := x.X.(*ast.Ident); !plain && root(x.X) == obj {
+				found = true
+			}
+		case *ast.CallExpr:
+			if sel, ok := x.Fun.(*ast.SelectorExpr); ok && root(sel.X) == obj {
+				if fo, ok := t.l.info.Uses[sel.Sel].(*types.Func); ok && fo.Pkg() == t.l.pkg {
+					rt := classify(t.l.info.TypeOf(sel.X))
+					if rt.name != "" && t.mutatesRecv(rt.name+"."+sel.Sel.Name) {
+						found = true
+					}
+				}
+			}
+		}
+		return true
+	})
+	return found
 }
 
 // ---- does a pointer-receiver method write through its receiver? ----
@@ -2016,7 +2425,7 @@ func (t *translator) translate(key string) {
 		t.lifted = nil
 		t.liftN = 0
 		c := &ctx{t: t, fd: fd, sig: sig, vars: map[types.Object]string{}, errs: map[types.Object]int{}, owned: map[types.Object]bool{},
-			views: map[types.Object]view{}, poison: map[types.Object]bool{}, counter: map[string]int{}, depth: 1}
+			views: map[types.Object]view{}, poison: map[types.Object]bool{}, counter: map[string]int{}, depth: 1, aliases: map[types.Object]alias{}}
 		var params []string
 		if sig.hasRecv {
 			f := fd.Recv.List[0]
@@ -2089,6 +2498,7 @@ func (t *translator) translate(key string) {
 		if len(rts) > 0 {
 			rt = strings.Join(rts, " * ")
 		}
+		c.resRaw = rt
 		if !pure {
 			rt = "res (" + rt + ")"
 		}
@@ -2137,6 +2547,8 @@ func (t *translator) showField(ti tyInfo, x string) string {
 		return fmt.Sprintf("SL (show_%s %s)", ti.name, x)
 	case kList:
 		return fmt.Sprintf("SL (map (fun e => %s) %s)", t.showField(*ti.elem, "e"), x)
+	case kIface:
+		return fmt.Sprintf("show_%s %s", ti.name, x)
 	}
 	return "SY \"?\""
 }
@@ -2153,6 +2565,8 @@ func (t *translator) readField(ti tyInfo) string {
 		return fmt.Sprintf("(fun v => let? l := as_L v in read_%s l)", ti.name)
 	case kList:
 		return fmt.Sprintf("(fun v => let? l := as_L v in omap %s l)", t.readField(*ti.elem))
+	case kIface:
+		return "read_" + ti.name
 	}
 	return "(fun _ => None)"
 }
@@ -2162,6 +2576,20 @@ func (t *translator) emitCodecs(b *bytes.Buffer) {
 	b.WriteString("Definition zn (z : Z) : sval := if z <? 0 then SZ z else SN (Z.to_N z).\n")
 	b.WriteString("Definition rz (v : sval) : option Z := match v with SN n => Some (Z.of_N n) | SZ z => Some z | _ => None end.\n\n")
 	for _, name := range t.order {
+		if strings.HasPrefix(name, "iface:") {
+			in := strings.TrimPrefix(name, "iface:")
+			fmt.Fprintf(b, "Definition show_%s (x : %s) : sval :=\n  match x with\n", in, in)
+			for _, m := range ifaceSums[in] {
+				fmt.Fprintf(b, "  | %s_%s a => SL (SY %s :: show_%s a)\n", in, m, coqString(m), m)
+			}
+			fmt.Fprintf(b, "  | %s_nil => SY \"nil\"\n  end.\n", in)
+			fmt.Fprintf(b, "Definition read_%s (v : sval) : option %s :=\n  match v with\n  | SL (SY n :: l) =>\n", in, in)
+			for _, m := range ifaceSums[in] {
+				fmt.Fprintf(b, "      if String.eqb n %s then (let? a := read_%s l in Some (%s_%s a)) else\n", coqString(m), m, in, m)
+			}
+			b.WriteString("      None\n  | _ => None\n  end.\n\n")
+			continue
+		}
 		s := t.structs[name]
 		fmt.Fprintf(b, "Definition zero_%s : %s := %s.\n", name, name, strings.TrimSuffix(strings.TrimPrefix(t.zero(tyInfo{k: kStruct, name: name}), "("), ")"))
 		fmt.Fprintf(b, "Definition show_%s (x : %s) : list sval :=\n  [", name, name)
